@@ -10,11 +10,12 @@ from mc import algos
 _CACHE = {}
 
 
-def _hp(bs=2, epochs=1, steps=None, seed=0, drop=False):
+def _hp(bs=2, epochs=1, steps=None, seed=0, drop=False, skip=False):
   import fedjax
   if isinstance(seed, str):   # 'int64:7' -> np.int64(7): seeds taken from NumPy (np.random.randint, array indexing)
     seed = getattr(np, seed.split(':')[0])(int(seed.split(':')[1]))
-  return fedjax.ShuffleRepeatBatchHParams(batch_size=bs, num_epochs=epochs, num_steps=steps, seed=seed, drop_remainder=drop)
+  return fedjax.ShuffleRepeatBatchHParams(batch_size=bs, num_epochs=epochs, num_steps=steps, seed=seed, drop_remainder=drop,
+                                          skip_shuffle=skip)
 
 
 def _php(bs=2, buckets=1):
